@@ -114,6 +114,7 @@ def cmd_run(name, props, patch=None, record=True):
         # leave lean/Verif/Generated as translated from /repo itself, not from the scratch tree
         env0 = {k: v for k, v in os.environ.items() if k != "VERIF_REPO"}
         sh(["/venv/bin/python", os.path.join(VERIF, "harness", "translate.py")], cwd=os.path.join(VERIF, "lean"), env=env0)
+        sh(["lake", "build", "driver"], cwd=os.path.join(VERIF, "lean"), env=env0)
     if record:
         meta.setdefault("checks", {}).update(results)
         with open(os.path.join(dst, "meta.json"), "w") as fh:
